@@ -423,9 +423,10 @@ class Ctx:
 
     def violation(self, key, what, payload=None):
         for f in self.findings:
-            if f.get("key") == key or (f.get("key_prefix") and key.startswith(f["key_prefix"])):
-                if key not in [k for k, _ in self.known]:
-                    self.known.append((key, f.get("what", what)))
+            if f.get("key") == key or (f.get("key_prefix") and key.startswith(f["key_prefix"])) or key in f.get("keys", ()):
+                fid = f.get("key") or f.get("key_prefix") or f.get("id") or key
+                if fid not in [k for k, _ in self.known]:      # one KNOWN-FINDING line per listed finding
+                    self.known.append((fid, f.get("what", what)))
                 return
         if len(self.violations) < 200:
             self.violations.append((key, what, payload))
